@@ -842,7 +842,11 @@ func genSparseScenario(rng *rand.Rand) spScenario {
 // runC10Conc: scheduled runs of concurrent readers (and the pre-load goroutines) of one sparse file, validated against the Lean machine
 func runC10Conc(cfg Config, rep *Report, m *Model, rng *rand.Rand) {
 	spWorkDir = cfg.Work
-	runs := cfg.N(450, 12000)
+	runs := cfg.N(1000, 15000)
+	t0 := time.Now()
+	defer func() {
+		rep.Notes = append(rep.Notes, fmt.Sprintf("sparse.accept: %d scheduled runs in %.1f s", runs, time.Since(t0).Seconds()))
+	}()
 	for it := 0; it < runs; it++ {
 		sc := genSparseScenario(rng)
 		policy := rng.Intn(5)
